@@ -13,7 +13,7 @@ theorem range_progress (a b n c : Nat) (evs dr) :
     Range.progress_and_get_begin_idx (range a b) n (st c evs dr) =
       .ok (if c < b - a then some c else none) (st (wrapAdd c n) (evs ++ [faa c n]) dr) := by
   simp only [Range.progress_and_get_begin_idx, Range.counter, range_initial_len, Counter.fetch_and_add, st, faa,
-    bind, M.bind, pure, M.pure, m_fetch_add, m_cmp]
+    bind, M.bind, pure, M.pure, m_fetch_add, St.get_ctr, St.set_ctr, m_cmp]
   simp only [range]
   by_cases h1 : c < b - a
   · simp [h1, M.pure]
@@ -66,7 +66,7 @@ theorem range_fetch_one (a b c : Nat) (evs dr) (ha : a < W) (hb : b < W) :
     Range.fetch_one (range a b) (st c evs dr) =
       .ok (if c < b - a then some ⟨c, a + c⟩ else none) (st (wrapAdd c 1) (evs ++ [faa c 1]) dr) := by
   simp only [Range.fetch_one, Range.counter, Range.get, range_initial_len, Counter.fetch_and_increment, st, faa,
-    bind, M.bind, pure, M.pure, m_fetch_add, m_cmp, m_into, op_add, m_map, MMap.m_map]
+    bind, M.bind, pure, M.pure, m_fetch_add, St.get_ctr, St.set_ctr, m_cmp, m_into, op_add, m_map, MMap.m_map]
   simp only [range]
   by_cases h1 : c < b - a
   · have : a + c < W := by omega
@@ -75,14 +75,14 @@ theorem range_fetch_one (a b c : Nat) (evs dr) (ha : a < W) (hb : b < W) :
 
 theorem range_early_exit (a b c : Nat) (evs dr) :
     Range.early_exit (range a b) (st c evs dr) = .ok () (st (b - a) (evs ++ [.st (.ctr 0) .seqcst (b - a)]) dr) := by
-  simp only [Range.early_exit, Range.counter, range_initial_len, Counter.store, st, bind, M.bind, pure, M.pure, m_store]
+  simp only [Range.early_exit, Range.counter, range_initial_len, Counter.store, st, bind, M.bind, pure, M.pure, m_store, MStore.m_store, St.set_ctr]
   simp [range]
 
 theorem range_try_get_len (a b c : Nat) (evs dr) :
     Range.try_get_len (range a b) (st c evs dr) =
       .ok (some (lenOf (b - a) c)) (st c (evs ++ [.ld (.ctr 0) .acquire c]) dr) := by
   simp only [Range.try_get_len, Range.counter, range_initial_len, Counter.current, st, lenOf,
-    bind, M.bind, pure, M.pure, m_load, m_cmp, op_sub]
+    bind, M.bind, pure, M.pure, m_load, MLoad.m_load, St.get_ctr, m_cmp, op_sub]
   simp only [range]
   by_cases h1 : c < b - a
   · have : c ≤ b - a := by omega
@@ -95,7 +95,7 @@ theorem range_into_seq_iter (a b c : Nat) (evs dr) (ha : a < W) (hb : b < W) :
     Range.into_seq_iter (range a b) (st c evs dr) =
       .ok ⟨a + min c (b - a), b⟩ (st c (evs ++ [.ld (.ctr 0) .acquire c]) dr) := by
   simp only [Range.into_seq_iter, Range.counter, range_initial_len, Counter.current, st,
-    bind, M.bind, pure, M.pure, m_load, m_min, m_into, op_add, m_range]
+    bind, M.bind, pure, M.pure, m_load, MLoad.m_load, St.get_ctr, m_min, m_into, op_add, m_range]
   simp only [range]
   have : a + min c (b - a) < W := by omega
   simp [this, M.pure, M.bind]
